@@ -1,5 +1,40 @@
 """Which contract families decide which property, and at what claimed level."""
 PROPS = {
+    'C06': {
+        'families': ['contracts.native'],
+        'level': 'other',
+        'technique': 'bounded native run of the round-trip contract (stand-in; deductive container-level contracts in progress)',
+        'text': 'Round-trip contract (equal, empty diff both ways, same text) evaluated natively over an enumerated space of '
+                'signatures through serialize/deserialize, the SignatureField JSON codec, Version.save()/reload on SQLite and v2->v1->v2. '
+                'Labelled bounded: nothing here is counted as proved.',
+        'level_note': 'Bounded stand-in only: the leaf value codec dispatches on runtime types and calls Django deconstruct()/constructors, '
+                      'outside the engine\'s reach.',
+        'explanation': 'bounded native enumeration of the round-trip contract; not a proof',
+        'not_decided': ['pickle path beyond the v1-expressible subset'],
+    },
+    'C13': {
+        'families': ['contracts.native'],
+        'level': 'other',
+        'technique': 'bounded native run of the faithfulness contract (stand-in; totality contracts on serialize_to_python in progress)',
+        'text': 'exec() of the rendered hint text defines mutations with the same signature effect and the same generated SQL as the '
+                'hinted mutations, over enumerated mutations and attribute values. Labelled bounded.',
+        'level_note': 'Bounded stand-in only: faithfulness needs the meaning of Python source text, which no contract over these functions expresses.',
+        'explanation': 'bounded native enumeration of the faithfulness contract; not a proof',
+        'not_decided': ['Python parsing semantics of the produced text beyond the enumerated cases'],
+    },
+    'C05': {
+        'families': ['contracts.sigdiff', 'contracts.native'],
+        'level': 'proof',
+        'technique': 'contract-based deductive verification + solver-checked lemmas over the contracts; bounded native stand-in for the closure clause',
+        'text': 'FieldSignature.get_attr_value/__eq__/diff against abstract views (diff lists exactly the attributes whose '
+                'values differ after applying class defaults, plus the type/relation markers); lemmas: diff(s,s) empty, '
+                '== implies empty diff both ways, and the converse (fails: known finding).',
+        'level_note': 'Trusted: pyvc engine/encoding; the _ATTRIBUTE_DEFAULTS lookup and the Django field-type comparison as '
+                      'uninterpreted functions; attribute values as opaque atoms with == as identity of the value. The closure '
+                      'clause (hinted evolution resolves the change) and model/app/project levels are decided by the bounded '
+                      'native suite only, labelled bounded.',
+        'not_decided': ['closure lemma diff -> hint -> simulate at model/app/project level (bounded stand-in only)'],
+    },
     'C08': {
         'families': ['contracts.recording', 'contracts.execution'],
         'level': 'proof',
